@@ -324,6 +324,9 @@ func init() {
 					do(s.Src, "")
 				}
 			}
+			// runs of more than 2^16 instructions and code beyond 64 KiB (counters and offsets wider than 16 bits)
+			do(strings.Repeat("eval 1\n", 33000)+"print 2", "")
+			do("def b {\n"+strings.Repeat("x = 1 + 2\n", 17000)+"}\nprint 1/0", "")
 			ids := []string{"C04"}
 			if c.Thorough() {
 				ids = []string{"C04", "C03", "C02"}
